@@ -12,6 +12,10 @@ def base_descr(b, t):
     """short, line-free description of an indexed base: the field path from its root"""
     t = strip_all(t)
     r, nm = field_path(t)
+    # opt.as_ref() / as_mut() only change how the payload is borrowed: `x.as_ref().0` is the place `x.0`
+    while r[0] == 'call' and isinstance(r[1], str) and r[1].split('::')[-1] in ('as_ref', 'as_mut') and 'Option' in r[1] and len(r[2]) == 1:
+        r, nm0 = field_path(strip_all(r[2][0]))
+        nm = nm0 + nm
     if r[0] == 'param':
         root = b.local_name(r[1])
     elif r[0] in ('mem', 'phi'):
@@ -363,23 +367,22 @@ def auto_discharge(ctx, b, h):
             lv = const_val(an.term_at(bi, len(blk['st']), t['len']))
             if iv is not None and lv is not None and 0 <= iv < lv:
                 return 'constant index %d into an array of length %d' % (iv, lv)
-        # loop variable over a range that ends at len(base)
-        D = None
-        from terms import Deps
-        D = Deps(an)
-        D.closure(idx)
-        for x in D.visited:
-            if x[0] == 'agg' and x[2] and x[2].endswith('ops::Range'):
-                f = dict(x[4])
-                def min_leaves(t):
-                    t = strip_all(t)
-                    if t[0] == 'call' and isinstance(t[1], str) and t[1].endswith('Ord::min') and len(t[2]) == 2:
-                        return min_leaves(t[2][0]) + min_leaves(t[2][1])
-                    return [t]
-                # the range ends at len(base), or at a min(..) one of whose operands is len(base)
-                ends = [len_of(x) for x in min_leaves(f.get('end', ('unknown',)))]
-                if any(lb is not None and same_base(b, lb, base) for lb in ends) and strip_casts(idx)[0] == 'field' and is_call(strip_casts(idx)[1], 'Iterator::next'):
-                    return 'index is the loop variable of a range ending at (a min with) len() of the same container'
+        # loop variable over a range that ends at len(base): `for i in s..e` or a while/loop counter, e being len(base),
+        # a minimum one of whose operands is len(base), or -- for a base that is itself base0[a..b] -- b - a
+        for st0, en in shared.index_loop_bounds(ctx, b, an, idx):
+            ends = shared.min_leaves(ctx, b, an, en)
+            if any(len_of(x) is not None and same_base(b, len_of(x), base) for x in ends):
+                return 'index is the loop variable of a loop ending at (a min with) len() of the same container'
+            sb = strip_all(base)
+            while sb[0] in ('deref', 'ref'):
+                sb = strip_all(sb[1])
+            if is_call(sb, 'Index::index', 'IndexMut::index_mut') and len(sb[2]) == 2 and sb[2][1][0] == 'agg' and (sb[2][1][2] or '').endswith('ops::Range'):
+                f = dict(sb[2][1][4])
+                if 'start' in f and 'end' in f:
+                    ln = poly(f['end']) - poly(f['start'])
+                    s0 = const_val(st0)
+                    if isinstance(s0, int) and s0 >= 0 and any(poly(x) == ln for x in [en] + ends):
+                        return 'index is the loop variable of a loop over 0..n into a slice base[a..a+n]'
         # constant index k under a guard len(base) > k' (k' >= k), !is_empty, len != 0
         if iv is not None:
             def pred(op, A, B):
